@@ -208,6 +208,22 @@ let handle_line line =
       (match parse_imf_fixdate (next_b c) with
        | Some t -> print_endline ("T " ^ dec_of_z t)
        | None -> print_endline "T -")
+  | "SYSCALLS" ->
+      let name = function
+        | SysOpenExclTmp -> "open_excl_tmp" | SysWrite -> "write" | SysFsync -> "fsync" | SysClose -> "close"
+        | SysRenameTmpFinal -> "rename_tmp_final" | SysUnlinkTmp -> "unlink_tmp" | SysOpenReadFinal -> "open_read_final"
+        | SysRead -> "read" | SysUnlinkFinal -> "unlink_final" in
+      let pr tag l = print_endline (tag ^ " " ^ String.concat " " (List.map name l)) in
+      pr "SET" set_program; pr "GET" get_program; pr "DELETE" delete_program
+  | "ENC" ->
+      (* ENC U <encrypt> <encrypt_key> <env key>   |   ENC O <option key> *)
+      let how = next c in
+      let r = if how = "U" then (let e = next_b c in let k = next_b c in let v = next_b c in from_url_go e k v)
+              else with_encryption_go (next_b c) in
+      (match r with
+       | OpenErr -> print_endline "W err"
+       | OpenOk None -> print_endline "W plain"
+       | OpenOk (Some k) -> print_endline ("W key:" ^ hex k))
   | "SCASE" ->
       case_id := next c; store_kind := next c; store_ops := []
   | "OP" ->
